@@ -1,17 +1,24 @@
 #!/venv/bin/python
-"""Regenerates MANIFEST.json from the property modules that exist (vmon/props/cNN.py) and
-validates it against the schema.  Properties without a module are listed under not_applicable
-with the reason 'check not built yet' so that the manifest is valid at every commit."""
-import json, os, re, subprocess, sys
+"""Regenerates MANIFEST.json from the property modules that exist (vmon/props/cNN.py) and validates it against
+the schema.  A property without a module is listed under not_applicable with a reason, so the manifest is valid
+and current at every commit.  Level text / trusted base / technique come from the module itself (CLAIM, RULE,
+ASSUMPTIONS, TECHNIQUE)."""
+import importlib, json, os, subprocess, sys
 HERE = os.path.dirname(os.path.dirname(os.path.abspath(__file__)))
+sys.path[:0] = ['/repo', HERE, os.path.join(HERE, '.deps')]
+os.environ['BDCHT_CRYSP_VERIF'] = '1'
 props = [json.loads(l) for l in open(os.path.join(HERE, 'properties.jsonl'))]
 TEXT = json.load(open(os.path.join(HERE, 'tools', 'manifest_text.json')))
-hooks_commits = TEXT.get('hook_commits', [])
+DEFAULT_TECH = 'runtime monitoring: reference-model oracle over generated executions of the real code, with S1 payload invariants (icontract), S3 global-state sanitizer and S4 anchor coverage (sys.monitoring)'
 checks, na = [], []
 for p in props:
     pid = p['id']
-    if os.path.exists(os.path.join(HERE, 'vmon', 'props', pid.lower() + '.py')) and pid in TEXT['checks']:
-        t = TEXT['checks'][pid]
+    path = os.path.join(HERE, 'vmon', 'props', pid.lower() + '.py')
+    if os.path.exists(path) and pid not in TEXT.get('na', {}):
+        mod = importlib.import_module('vmon.props.' + pid.lower())
+        claim = getattr(mod, 'CLAIM', None) or ('Held on the executions observed, never "verified": every monitored execution of the real code in /repo agreed with the '
+                 'oracle on all generated classes (' + mod.RULE + '). Exploration is the level runtime monitoring can give for a property quantified over an '
+                 'unbounded input/configuration/history space; finite sub-domains that were enumerated completely are listed in the evidence as exhaustive_subdomains.')
         checks.append({
             'property_id': pid,
             'quick_cmd': './check %s --tier quick' % pid,
@@ -19,9 +26,9 @@ for p in props:
             'evidence_file': 'evidence/%s.json' % pid,
             'replay_cmd_template': './check %s --replay {path}' % pid,
             'engine': 'vmon',
-            'level_claimed': {'category': 'exploration', 'text': t['text'], 'design_ref': 'DESIGN.md section 5 (%s), sections 3-4' % pid},
-            'level_note': t['note'],
-            'technique': t['technique'],
+            'level_claimed': {'category': getattr(mod, 'LEVEL', 'exploration'), 'text': claim, 'design_ref': 'DESIGN.md section 5 (%s), sections 3, 4 and 6' % pid},
+            'level_note': 'Trusted base: ' + '; '.join(getattr(mod, 'ASSUMPTIONS', [])) + '; CPython 3.12; the vmon harness. Oracles are self-tested at the start of every run (failure => INCONCLUSIVE, exit 3).',
+            'technique': getattr(mod, 'TECHNIQUE', DEFAULT_TECH),
         })
     else:
         na.append({'property_id': pid, 'reason': TEXT.get('na', {}).get(pid, 'check not built yet (runtime monitor under construction); not claimed at this commit')})
@@ -32,7 +39,7 @@ m = {
         'guard': 'BDCHT_CRYSP_VERIF',
         'enable': 'checks run /venv/bin/python with BDCHT_CRYSP_VERIF=1 and PYTHONPATH=/repo (pure Python: nothing to build; the working tree is imported directly)',
         'baseline_off_cmd': 'cd /repo && env -u BDCHT_CRYSP_VERIF /venv/bin/python -m pytest -ra -q -p no:cacheprovider --timeout=900 --continue-on-collection-errors',
-        'source_commits': hooks_commits,
+        'source_commits': TEXT.get('hook_commits', []),
         'add_only': True,
     },
     'engines': [{'name': 'vmon', 'path': 'vmon/', 'serves_properties': [c['property_id'] for c in checks],
@@ -42,5 +49,5 @@ m = {
     'notes': TEXT.get('notes', ''),
 }
 json.dump(m, open(os.path.join(HERE, 'MANIFEST.json'), 'w'), indent=1)
-r = subprocess.run(['python3-vt', '-c', 'import json,jsonschema,sys; jsonschema.validate(json.load(open(sys.argv[1])), json.load(open("/root/.vp/MANIFEST.schema.json"))); print("MANIFEST valid:", len(json.load(open(sys.argv[1]))["checks"]), "checks")', os.path.join(HERE, 'MANIFEST.json')])
+r = subprocess.run(['python3-vt', '-c', 'import json,jsonschema,sys; jsonschema.validate(json.load(open(sys.argv[1])), json.load(open("/root/.vp/MANIFEST.schema.json"))); m=json.load(open(sys.argv[1])); print("MANIFEST valid:", len(m["checks"]), "checks,", len(m["not_applicable"]), "not claimed")', os.path.join(HERE, 'MANIFEST.json')])
 sys.exit(r.returncode)
